@@ -12,7 +12,7 @@
 
 #define BG_UMAX 0xFFFFFFFFul /* B-SIZE: vertex count fits VertexIndex */
 
-#define BG_SCRATCH_(L) bg_scratch_row, bg_scratch_val_##L
+#define BG_SCRATCH_(L) bg_scratch_row, bg_scratch_val_##L, bg_cur_adj
 
 /* ---- class counters ---- */
 #define C_LEN_(c, F) F((c).len)
@@ -31,14 +31,14 @@
 #define A_LENP_(a, F) C_LEN_((a).rowP->c, F)
 #define A_LENQ_(a, F)                                                         \
   (G_P == G_Q ? C_LEN_((a).rowP->c, F) : C_LEN_((a).rowQ->c, F))
-#define A_TOTAL_(a, F)                                                        \
-  (C_LEN_((a).rowP->c, F) + C_LEN_((a).rowQ->c, F) + F((a).restLen))
+#define A_TOTAL_(a, F) F((a).r.total)
 #define A_REST_SAME_(a, F)                                                    \
-  ((a).restLen == F((a).restLen) && (a).restUp == F((a).restUp) &&            \
-   (a).restInQ == F((a).restInQ) && (a).restInP == F((a).restInP))
+  ((a).r.total == F((a).r.total) && (a).r.totalUp == F((a).r.totalUp) &&      \
+   (a).r.restLen == F((a).r.restLen) && (a).r.restUp == F((a).r.restUp) &&    \
+   (a).r.restInQ == F((a).r.restInQ) && (a).r.restInP == F((a).r.restInP))
 #define A_SAME_BUT_N_(a, F)                                                   \
   (ROW_SAME_(*(a).rowP, F) && ROW_SAME_(*(a).rowQ, F) && A_REST_SAME_(a, F) &&   \
-   (a).bound == F((a).bound))
+   (a).r.restBound == F((a).r.restBound))
 #define A_SAME_(a, F) (A_SAME_BUT_N_(a, F) && (a).n == F((a).n))
 
 /* ---- label map ---- */
@@ -47,18 +47,18 @@
 #define LEQ_uint(a, b) ((a) == (b))
 #define LEQ_real(a, b) ((a) == (b))
 #define M_SAME_X(m, F, EQ)                                                    \
-  ((m).hasPQ == F((m).hasPQ) && (m).hasQP == F((m).hasQP) &&                  \
+  ((m).s.hasPQ == F((m).s.hasPQ) && (m).s.hasQP == F((m).s.hasQP) &&                  \
    EQ(*(m).valPQ, F(*(m).valPQ)) && EQ(*(m).valQP, F(*(m).valQP)) &&          \
-   (m).restCount == F((m).restCount))
+   (m).s.restCount == F((m).s.restCount))
 #define M_SAME_VLabel(m, F) M_SAME_X(m, F, LEQ_VLabel)
 #define M_SAME_NoLabel(m, F) M_SAME_X(m, F, LEQ_NoLabel)
 #define M_SAME_uint(m, F) M_SAME_X(m, F, LEQ_uint)
 #define M_SAME_real(m, F) M_SAME_X(m, F, LEQ_real)
 /* cell (G_P,G_Q) / (G_Q,G_P) unchanged */
 #define M_PQ_SAME_X(m, F, EQ)                                                 \
-  ((m).hasPQ == F((m).hasPQ) && EQ(*(m).valPQ, F(*(m).valPQ)))
+  ((m).s.hasPQ == F((m).s.hasPQ) && EQ(*(m).valPQ, F(*(m).valPQ)))
 #define M_QP_SAME_X(m, F, EQ)                                                 \
-  ((m).hasQP == F((m).hasQP) && EQ(*(m).valQP, F(*(m).valQP)))
+  ((m).s.hasQP == F((m).s.hasQP) && EQ(*(m).valQP, F(*(m).valQP)))
 
 /* ================= directed graph LDG_<L> ================= */
 #define D_CNT_PQ_(g, F) A_CNT_PQ_((g)->adjacencyList, F)
@@ -73,15 +73,17 @@
 
 #define D_WF_STRUCT(g)                                                        \
   (BG_ADJ_WF((g)->adjacencyList) && (g)->adjacencyList.n == (g)->size &&      \
-   (g)->size <= BG_UMAX && (g)->adjacencyList.bound <= (g)->size &&           \
-   (g)->edgeNumber == D_TOTAL_(g, ID) && (g)->edgeLabels.restCount < BG_CAP)
+   (g)->size <= BG_UMAX && (g)->adjacencyList.r.restBound <= (g)->size &&           \
+   (g)->adjacencyList.rowP->bound <= (g)->size &&                             \
+   (g)->adjacencyList.rowQ->bound <= (g)->size &&                             \
+   (g)->edgeNumber == D_TOTAL_(g, ID) && (g)->edgeLabels.s.restCount < BG_CAP)
 /* C03: a label entry exists exactly as long as its edge */
 #define D_WF_LABELLED(g)                                                      \
-  ((g)->edgeLabels.hasPQ == (D_CNT_PQ(g) > 0) &&                              \
-   (g)->edgeLabels.hasQP == (G_P != G_Q && D_CNT_QP(g) > 0))
+  ((g)->edgeLabels.s.hasPQ == (D_CNT_PQ(g) > 0) &&                              \
+   (g)->edgeLabels.s.hasQP == (G_P != G_Q && D_CNT_QP(g) > 0))
 #define D_WF_UNLABELLED(g)                                                    \
-  (!(g)->edgeLabels.hasPQ && !(g)->edgeLabels.hasQP &&                        \
-   (g)->edgeLabels.restCount == 0)
+  (!(g)->edgeLabels.s.hasPQ && !(g)->edgeLabels.s.hasQP &&                        \
+   (g)->edgeLabels.s.restCount == 0)
 #define D_WF_LABELS_VLabel(g) D_WF_LABELLED(g)
 #define D_WF_LABELS_uint(g) D_WF_LABELLED(g)
 #define D_WF_LABELS_real(g) D_WF_LABELLED(g)
@@ -103,7 +105,8 @@
    bg_exc == BG_EXC_NONE && BG_SCRATCH_CLEAN)
 /* frame of a mutating member function */
 #define D_FRAME(g, L)                                                         \
-  *(g), *(g)->adjacencyList.rowP, *(g)->adjacencyList.rowQ,                   \
+  (g)->size, (g)->edgeNumber, (g)->adjacencyList.n, (g)->adjacencyList.r,     \
+      (g)->edgeLabels.s, *(g)->adjacencyList.rowP, *(g)->adjacencyList.rowQ,  \
       *(g)->edgeLabels.valPQ, *(g)->edgeLabels.valQP, bg_exc, BG_SCRATCH_(L)
 #define D_FRAME_CONST(L) bg_exc, BG_SCRATCH_(L)
 #define D_PRE_VLabel(g) D_PRE_X(g, D_WF_LABELS_VLabel)
